@@ -305,22 +305,23 @@ def pagesView (A : AggType) (pages : List (PageKey × Buf)) (fld ser slot : Nat)
   | none => none
   | some b => memView A b slot
 
-/-- the calls of one page fold to the page's view (proved for a commutative aggregate —
-`pageCalls_fsum` — and, for any aggregate, for a page written in time order — `C11Sorted`). -/
-def PageFold (A : AggType) (L : List AggType) (b : Buf) : Prop :=
+/-- the calls of one page, folded by the function's aggregate `F`, are the `F`-fold of the page's view
+under the field's aggregate `A` (proved for `F = A` commutative — `pageCalls_fsum` — and, for any
+`F`, for a page written in time order — `C11Sorted`). -/
+def PageFold (F A : AggType) (L : List AggType) (b : Buf) : Prop :=
   ∀ lo hi tLo tHi g0 qs ratio t,
-    fsum A (pageCalls L b lo hi tLo tHi g0 qs ratio) (fun c => arrGet c A t) =
-      fsum A (slotsOf lo hi)
+    fsum F (pageCalls L b lo hi tLo tHi g0 qs ratio) (fun c => arrGet c F t) =
+      fsum F (slotsOf lo hi)
         (fun s => if tLo ≤ s ∧ s ≤ tHi ∧ (g0 + s - qs) / ratio = t then memView A b s else none)
 
 /-- a memory database's calls = bucket fold of its pages' views (`[lo, hi]` covers the pages). -/
-theorem memCallsR_fsum_gen (A : AggType) {L : List AggType} (q : Query) (hspf : 0 < q.spf)
+theorem memCallsR_fsum_gen (F A : AggType) {L : List AggType} (q : Query) (hspf : 0 < q.spf)
     (pages : List (PageKey × Buf)) (lo hi : Nat)
     (hb : ∀ ser b, Map.lookup pages (ser, q.field) = some b →
-      PageFold A L b ∧ ∀ t, memView A b t ≠ none → lo ≤ t ∧ t ≤ hi)
+      PageFold F A L b ∧ ∀ t, memView A b t ≠ none → lo ≤ t ∧ t ≤ hi)
     (fam : Nat) (group : List Nat) (t : Nat) :
-    fsum A (memCallsR q L pages (some (lo, hi)) fam group) (fun c => arrGet c A t) =
-      famBucket A q fam t group (fun ser slot => pagesView A pages q.field ser slot) := by
+    fsum F (memCallsR q L pages (some (lo, hi)) fam group) (fun c => arrGet c F t) =
+      famBucket F q fam t group (fun ser slot => pagesView A pages q.field ser slot) := by
   unfold memCallsR
   cases ht : familyTarget q fam with
   | none =>
@@ -379,7 +380,7 @@ theorem memCallsR_fsum {w : Nat} (A : AggType) {L : List AggType} (hL : L.Nodup)
     (fam : Nat) (group : List Nat) (t : Nat) :
     fsum A (memCallsR q L pages (some (lo, hi)) fam group) (fun c => arrGet c A t) =
       famBucket A q fam t group (fun ser slot => pagesView A pages q.field ser slot) :=
-  memCallsR_fsum_gen A q hspf pages lo hi
+  memCallsR_fsum_gen A A q hspf pages lo hi
     (fun ser b hp => ⟨fun lo hi tLo tHi g0 qs ratio t => pageCalls_fsum hL hAL hc b (hb ser b hp).1 lo hi tLo tHi g0 qs ratio t,
       (hb ser b hp).2⟩) fam group t
 
@@ -389,15 +390,15 @@ theorem pageView_eq_pagesView (s : Shard) (fam : Nat) (md : MemDB) (hm : (s.fami
   rfl
 
 /-- the memory database's calls = bucket fold of `pageView`. -/
-theorem memCalls_fsum_gen (s : Shard) (pts : List Point) (hinv : Inv s pts) (q : Query) {L : List AggType} (hspf : 0 < q.spf)
+theorem memCalls_fsum_gen (s : Shard) (pts : List Point) (hinv : Inv s pts) (q : Query) (F : AggType) {L : List AggType} (hspf : 0 < q.spf)
     (fam : Nat) (md : MemDB) (hm : (s.family fam).mutable_ = some md)
-    (hP : ∀ ser b, Map.lookup md.pages (ser, q.field) = some b → BufInv s.window b → PageFold (s.fieldAgg q.field) L b)
+    (hP : ∀ ser b, Map.lookup md.pages (ser, q.field) = some b → BufInv s.window b → PageFold F (s.fieldAgg q.field) L b)
     (group : List Nat) (t : Nat) :
-    fsum (s.fieldAgg q.field) (memCalls s q L md fam group) (fun c => arrGet c (s.fieldAgg q.field) t) =
-      famBucket (s.fieldAgg q.field) q fam t group (fun ser slot => pageView s fam ser q.field slot) := by
+    fsum F (memCalls s q L md fam group) (fun c => arrGet c F t) =
+      famBucket F q fam t group (fun ser slot => pageView s fam ser q.field slot) := by
   obtain ⟨lo, hi, hr, hb⟩ := hinv.pages fam md hm
   unfold memCalls
-  rw [hr, memCallsR_fsum_gen _ q hspf md.pages lo hi
+  rw [hr, memCallsR_fsum_gen F _ q hspf md.pages lo hi
     (fun ser b hp => ⟨hP ser b hp (hb (ser, q.field) b hp).1, (hb (ser, q.field) b hp).2⟩) fam group t]
   unfold famBucket
   apply fsum_congr
@@ -411,7 +412,7 @@ theorem memCalls_fsum (s : Shard) (pts : List Point) (hinv : Inv s pts) (q : Que
     (group : List Nat) (t : Nat) :
     fsum (s.fieldAgg q.field) (memCalls s q L md fam group) (fun c => arrGet c (s.fieldAgg q.field) t) =
       famBucket (s.fieldAgg q.field) q fam t group (fun ser slot => pageView s fam ser q.field slot) :=
-  memCalls_fsum_gen s pts hinv q hspf fam md hm
+  memCalls_fsum_gen s pts hinv q _ hspf fam md hm
     (fun ser b _ hbi lo hi tLo tHi g0 qs ratio t => pageCalls_fsum hL hAL hc b hbi lo hi tLo tHi g0 qs ratio t) group t
 
 theorem cell_range (blk : Block) (k : PageKey) (slot : Nat) (h : blk.cell k slot ≠ none) :
@@ -869,15 +870,15 @@ theorem pageView_none_of_filter_none (s : Shard) (h2 : Inv2 s) (q : Query) (sc :
   exact pagesView_none_of_filter_none _ s.known q sc group hsc md.pages
     (fun k b hk => h2.known fam md k b hm hk) _ fam hf ser hser slot
 
-theorem memResult_fsum_gen (s : Shard) (pts : List Point) (hinv : Inv s pts) (h2 : Inv2 s) (q : Query) {L : List AggType} (sc : Scope)
+theorem memResult_fsum_gen (s : Shard) (pts : List Point) (hinv : Inv s pts) (h2 : Inv2 s) (q : Query) (F : AggType) {L : List AggType} (sc : Scope)
     (fam : Nat) (group : List Nat)
     (hsc : ScopeOK q sc group) (t : Nat)
     (hM : ∀ md, (s.family fam).mutable_ = some md →
-      fsum (s.fieldAgg q.field) (memCalls s q L md fam group) (fun c => arrGet c (s.fieldAgg q.field) t) =
-        famBucket (s.fieldAgg q.field) q fam t group (fun ser slot => pageView s fam ser q.field slot)) :
+      fsum F (memCalls s q L md fam group) (fun c => arrGet c F t) =
+        famBucket F q fam t group (fun ser slot => pageView s fam ser q.field slot)) :
     ∃ mem, memResult s q sc L fam group = some mem ∧
-      fsum (s.fieldAgg q.field) mem (fun c => arrGet c (s.fieldAgg q.field) t) =
-        famBucket (s.fieldAgg q.field) q fam t group (fun ser slot => pageView s fam ser q.field slot) := by
+      fsum F mem (fun c => arrGet c F t) =
+        famBucket F q fam t group (fun ser slot => pageView s fam ser q.field slot) := by
   unfold memResult
   cases hm : (s.family fam).mutable_ with
   | none =>
@@ -917,7 +918,7 @@ theorem memResult_fsum (s : Shard) (pts : List Point) (hinv : Inv s pts) (h2 : I
     ∃ mem, memResult s q sc L fam group = some mem ∧
       fsum (s.fieldAgg q.field) mem (fun c => arrGet c (s.fieldAgg q.field) t) =
         famBucket (s.fieldAgg q.field) q fam t group (fun ser slot => pageView s fam ser q.field slot) :=
-  memResult_fsum_gen s pts hinv h2 q sc fam group hsc t
+  memResult_fsum_gen s pts hinv h2 q _ sc fam group hsc t
     (fun md hm => memCalls_fsum s pts hinv q hL hAL hspf hc fam md hm group t)
 
 /-- with not-found ignored the family's calls are the memory calls followed by the calls of the
@@ -971,30 +972,30 @@ theorem fileCalls_fsum_any (s : Shard) (pts : List Point) (hinv : Inv s pts) (h2
       rw [List.contains_eq_mem] at hcf
       simp [this] at hcf
 
-theorem familyCalls_fsum_raw (s : Shard) (pts : List Point) (hinv : Inv s pts) (h2 : Inv2 s) (q : Query) {L : List AggType} (hL : L.Nodup) (hAL : s.fieldAgg q.field ∈ L) (sc : Scope)
+theorem familyCalls_fsum_raw (s : Shard) (pts : List Point) (hinv : Inv s pts) (h2 : Inv2 s) (q : Query) (F : AggType) {L : List AggType} (hL : L.Nodup) (hAL : F ∈ L) (sc : Scope)
     (hspf : 0 < q.spf) (fam : Nat) (group : List Nat)
     (hsc : ScopeOK q sc group) (t : Nat)
     (hM : ∀ md, (s.family fam).mutable_ = some md →
-      fsum (s.fieldAgg q.field) (memCalls s q L md fam group) (fun c => arrGet c (s.fieldAgg q.field) t) =
-        famBucket (s.fieldAgg q.field) q fam t group (fun ser slot => pageView s fam ser q.field slot)) :
-    fsum (s.fieldAgg q.field) (familyCalls s q sc L fam group)
-        (fun c => arrGet c (s.fieldAgg q.field) t) =
-      ocomb (s.fieldAgg q.field)
-        (famBucket (s.fieldAgg q.field) q fam t group (fun ser slot => pageView s fam ser q.field slot))
-        (fsum (s.fieldAgg q.field) (s.family fam).readers
-          (fun blk => famBucket (s.fieldAgg q.field) q fam t group (fun ser slot => blk.cell (ser, q.field) slot))) := by
-  obtain ⟨mem, hmemEq, hmemSum⟩ := memResult_fsum_gen s pts hinv h2 q sc fam group hsc t hM
+      fsum F (memCalls s q L md fam group) (fun c => arrGet c F t) =
+        famBucket F q fam t group (fun ser slot => pageView s fam ser q.field slot)) :
+    fsum F (familyCalls s q sc L fam group)
+        (fun c => arrGet c F t) =
+      ocomb F
+        (famBucket F q fam t group (fun ser slot => pageView s fam ser q.field slot))
+        (fsum F (s.family fam).readers
+          (fun blk => famBucket F q fam t group (fun ser slot => blk.cell (ser, q.field) slot))) := by
+  obtain ⟨mem, hmemEq, hmemSum⟩ := memResult_fsum_gen s pts hinv h2 q F sc fam group hsc t hM
   have hni : s.cfg.notFoundIgnored = true := by rw [hinv.cfgFixed]; rfl
   unfold familyCalls
   rw [hmemEq, hni]
   simp only
   rw [combineCalls_fsum, hmemSum]
   -- the matching overlapping readers → all readers
-  have hfiles : fsum (s.fieldAgg q.field) ((familyReaders s q fam).filter (blockMatches sc))
-      (fun blk => fsum (s.fieldAgg q.field) (fileCalls s q sc L blk fam group)
-        (fun c => arrGet c (s.fieldAgg q.field) t)) =
-      fsum (s.fieldAgg q.field) (s.family fam).readers
-        (fun blk => famBucket (s.fieldAgg q.field) q fam t group (fun ser slot => blk.cell (ser, q.field) slot)) := by
+  have hfiles : fsum F ((familyReaders s q fam).filter (blockMatches sc))
+      (fun blk => fsum F (fileCalls s q sc L blk fam group)
+        (fun c => arrGet c F t)) =
+      fsum F (s.family fam).readers
+        (fun blk => famBucket F q fam t group (fun ser slot => blk.cell (ser, q.field) slot)) := by
     have hsub : ∀ blk ∈ familyReaders s q fam, blk ∈ (s.family fam).readers := by
       intro blk hb
       unfold familyReaders at hb
@@ -1005,11 +1006,11 @@ theorem familyCalls_fsum_raw (s : Shard) (pts : List Point) (hinv : Inv s pts) (
         rw [ht] at hb
         simp only at hb
         exact (List.mem_filter.mp hb).1
-    have h1 : fsum (s.fieldAgg q.field) ((familyReaders s q fam).filter (blockMatches sc))
-        (fun blk => fsum (s.fieldAgg q.field) (fileCalls s q sc L blk fam group)
-          (fun c => arrGet c (s.fieldAgg q.field) t)) =
-        fsum (s.fieldAgg q.field) ((familyReaders s q fam).filter (blockMatches sc))
-          (fun blk => famBucket (s.fieldAgg q.field) q fam t group (fun ser slot => blk.cell (ser, q.field) slot)) := by
+    have h1 : fsum F ((familyReaders s q fam).filter (blockMatches sc))
+        (fun blk => fsum F (fileCalls s q sc L blk fam group)
+          (fun c => arrGet c F t)) =
+        fsum F ((familyReaders s q fam).filter (blockMatches sc))
+          (fun blk => famBucket F q fam t group (fun ser slot => blk.cell (ser, q.field) slot)) := by
       apply fsum_congr
       intro blk hb
       exact fileCalls_fsum_any s pts hinv h2 q hL sc _ hAL hspf fam blk (hsub blk (List.mem_filter.mp hb).1) group t
@@ -1064,7 +1065,7 @@ theorem familyCalls_fsum (s : Shard) (pts : List Point) (hinv : Inv s pts) (h2 :
     fsum (s.fieldAgg q.field) (familyCalls s q sc L fam group)
         (fun c => arrGet c (s.fieldAgg q.field) t) =
       famBucket (s.fieldAgg q.field) q fam t group (fun ser slot => storeView s fam ser q.field slot) := by
-  rw [familyCalls_fsum_raw s pts hinv h2 q hL hAL sc hspf fam group hsc t
+  rw [familyCalls_fsum_raw s pts hinv h2 q _ hL hAL sc hspf fam group hsc t
     (fun md hm => memCalls_fsum s pts hinv q hL hAL hspf hc fam md hm group t)]
   rw [famBucket_fsum hc, famBucket_add hc]
   apply famBucket_congr
